@@ -177,6 +177,34 @@ fn c01_sig(case: &Case, sigil: &str, optname: &str, kind: &str, got: Option<&Out
             // in an eagerly evaluated let above those conditions
             return "cse/repeated-raise-under-repeated-condition-lifted".to_string();
         }
+        if d.stepping.map(|s| s >= 23).unwrap_or(false) && case.tags.first().map(|t| t.starts_with("data/bare-")).unwrap_or(false) && text.contains("(1)") {
+            // F35: null_optimization is entered with spine=true on a body that is itself a quoted constant and
+            // rewrites the sub-list (1) of the DATA to (); symptom: the value comes back without any (1)
+            // every car-position occurrence of (1) in the payload replaced by ()
+            fn rw(t: &T) -> T {
+                match t {
+                    T::P(a, b) => {
+                        let a2 = if matches!(&**a, T::P(h, tl) if **h == T::int(1) && tl.is_nil()) { T::nil() } else { rw(a) };
+                        T::p(a2, rw(b))
+                    }
+                    _ => t.clone(),
+                }
+            }
+            fn contains(t: &T, sub: &T) -> bool {
+                t == sub || matches!(t, T::P(a, b) if contains(a, sub) || contains(b, sub))
+            }
+            fn payload(e: &E) -> Option<&T> {
+                if let E::Quote(d) = e {
+                    Some(d)
+                } else {
+                    None
+                }
+            }
+            let d = payload(&case.prog.body).or_else(|| case.prog.helpers.iter().find_map(|h| if let Helper::Fun { body, .. } = h { payload(body) } else { None }));
+            if matches!((got, d), (Some(Out::Val(v)), Some(d)) if rw(d) != *d && contains(v, &rw(d))) {
+                return "optimiser/(1)-inside-a-bare-quoted-body-becomes-nil".to_string();
+            }
+        }
         if sigil == "*strict-cl-21*" && optname != "run" && code.map(|c| contains_quoted_64(c)).unwrap_or(false) {
             return "strict-cl21-optimised/@-becomes-(q . 64)".to_string();
         }
@@ -383,10 +411,12 @@ pub fn c01(thorough: bool, replay: Option<String>) -> i32 {
         calls.extend(calls_cases(Some(s), if thorough { 3 } else { 2 }));
         calls.extend(nested_cases(Some(s)));
         calls.extend(many_helpers_cases(Some(s), if thorough { 16 } else { 9 }));
+        calls.extend(cse_cases(Some(s), thorough));
+        calls.extend(const_graph_cases(Some(s), if thorough { 4 } else { 3 }).into_iter().filter(|c| thorough || c.tags[1].ends_with("order0") || c.tags[1].ends_with("order1")));
     }
     let n = calls.len() as u64;
     let (st, capped) = par_range(n, 8, cap, || (), |_, st, i| check_c01_case(st, &calls[i as usize], "CALLS"));
-    rep.add_sub("CALLS", "recursion, mutual recursion, modules with 1..9 (thorough 16) helpers in three kind mixes, lambdas capturing 1..4 variables (applied directly and through a helper), nested (mod ...) forms applied with `a` (outer helper kind x inner helper kind incl. a reused function name x 4 positions), constant/zero-argument calls inside helpers, every defun/inline assignment of call chains with a &rest tail at every call site, and every (parameters 1..4, given 0..n) combination of a &rest call with missing positional arguments, x 6 sigils x 2 option sets", n, true, capped, st);
+    rep.add_sub("CALLS", "recursion, mutual recursion, modules with 1..9 (thorough 16) helpers in three kind mixes, repeated (possibly raising) subexpressions in every conditional tree of depth <= 2 over two conditions and under 5 binder kinds x 5 non-root contexts, chains of defconst constants depending on each other directly / through a defun / inline / macro, lambdas capturing 1..4 variables (applied directly and through a helper), nested (mod ...) forms applied with `a` (outer helper kind x inner helper kind incl. a reused function name x 4 positions), constant/zero-argument calls inside helpers, every defun/inline assignment of call chains with a &rest tail at every call site, and every (parameters 1..4, given 0..n) combination of a &rest call with missing positional arguments, x 6 sigils x 2 option sets", n, true, capped, st);
 
     let n = sp.kernel.len() as u64 * ns;
     let (st, capped) = par_range(n, 16, cap, || (), |_, st, i| {
@@ -687,6 +717,7 @@ pub fn c02(thorough: bool, replay: Option<String>) -> i32 {
     cases.extend(calls_cases(None, if thorough { 3 } else { 2 }));
     cases.extend(nested_cases(None));
     cases.extend(many_helpers_cases(None, if thorough { 12 } else { 5 }));
+    cases.extend(cse_cases(None, thorough).into_iter().enumerate().filter(|(i, _)| thorough || i % 3 == 0).map(|(_, c)| c));
     cases.extend(lookalike_cases(None, thorough, if thorough { &["main-body", "function-body", "defconst", "inline-argument"] } else { &["main-body"] }));
     for e in kernel_exprs(1) {
         cases.push(kernel_case(&e, 0, None));
@@ -893,6 +924,89 @@ pub fn c03(thorough: bool, replay: Option<String>) -> i32 {
             }
         }
     });
+    // constants graphs: the classic module compiler evaluates pending constants in hash-iteration order; every
+    // order is explored through the additive seam (feature verif-hooks), one non-identity permutation per visit
+    {
+        use chialisp::verif_hooks;
+        let cases = const_graph_cases(None, if thorough { 4 } else { 3 });
+        let n = cases.len() as u64;
+        let (st2, capped2) = par_range(n, 1, cap, || (), |_, st, i| {
+            let case = &cases[i as usize];
+            let text = case.prog.text();
+            let tag = format!("{}+{}", case.tags[0], case.tags[1].split("-order").next().unwrap_or(""));
+            // first run in sorted order, recording the size of the collection at every visit of the site
+            let sizes: std::sync::Arc<std::sync::Mutex<Vec<usize>>> = Default::default();
+            let s2 = sizes.clone();
+            verif_hooks::set_order_hook(Some(Box::new(move |_site, k| {
+                s2.lock().unwrap().push(k);
+                (0..k).collect()
+            })));
+            let base = library_compile(&text, &[], true);
+            verif_hooks::set_order_hook(None);
+            let visits = sizes.lock().unwrap().clone();
+            st.count("order-site-visits", visits.len() as u64);
+            let mut plans: Vec<Option<(usize, Vec<usize>)>> = vec![None];
+            for (k, sz) in visits.iter().enumerate() {
+                if *sz >= 2 && *sz <= 4 {
+                    for p in crate::histmc::all_perms_pub(*sz) {
+                        if !p.iter().enumerate().all(|(a, b)| a == *b) {
+                            plans.push(Some((k, p)));
+                        }
+                    }
+                }
+            }
+            for plan in plans {
+                st.eval();
+                let classic = match &plan {
+                    None => base.clone(),
+                    Some((k, p)) => {
+                        let (k, p2) = (*k, p.clone());
+                        let mut visit = 0usize;
+                        verif_hooks::set_order_hook(Some(Box::new(move |_site, m| {
+                            let r = if visit == k && m == p2.len() { p2.clone() } else { (0..m).collect() };
+                            visit += 1;
+                            r
+                        })));
+                        let r = library_compile(&text, &[], true);
+                        verif_hooks::set_order_hook(None);
+                        r
+                    }
+                };
+                let code = match &classic {
+                    Ok(c) => c.code.clone(),
+                    Err(e) if e.is_panic() => {
+                        st.violation(&format!("classic-panic/{}", tag), format!("{}: {}", text, e.msg()), text.len(), json!({"kind": "c03", "text": text}));
+                        continue;
+                    }
+                    Err(e) => {
+                        if base.is_ok() {
+                            st.violation(&format!("rejected-under-an-iteration-order/{}", tag), format!("{}: accepted when pending constants are visited in sorted order, rejected ({}) under {:?}", text, e.msg(), plan), text.len(), json!({"kind": "c03", "text": text, "order": format!("{:?}", plan)}));
+                        } else {
+                            st.outcome("classic-rejected");
+                            st.count(&format!("rejected[{}]", e.msg().chars().take(50).collect::<String>()), 1);
+                        }
+                        continue;
+                    }
+                };
+                st.outcome("classic-accepted");
+                for a in &case.args {
+                    if let Ok(v) = reference(&case.prog, a) {
+                        match consensus(&code, a) {
+                            Out::Val(g) if g == v => {
+                                st.nontrivial(&(&text, a, &plan));
+                                if plan.is_some() {
+                                    st.sample(json!({"program": text, "visit_and_permutation": format!("{:?}", plan), "args": a.short(), "value": v.short()}));
+                                }
+                            }
+                            Out::Limit => {}
+                            other => st.violation(&format!("vs-reference/{}", tag), format!("{} on {} with pending constants visited in order {:?}: source means {}, classic build gives {}", text, a.short(), plan, v.short(), other.short()), text.len(), json!({"kind": "c03", "text": text, "args": a.hex(), "order": format!("{:?}", plan)})),
+                        }
+                    }
+                }
+            }
+        });
+        rep.add_sub("constants-graphs", &format!("{} programs: chains of 2..{} defconst constants depending on each other directly / through a defun / an inline / a template macro, in every order of the definitions; each compiled with the pending-constants loop of the classic module compiler iterated in sorted order and in every other permutation at each visit (through the verif-hooks seam; every order is realisable under some hash seeding)", n, if thorough { 4 } else { 3 }), n, true, capped2, st2);
+    }
     rep.add_sub("classic-programs", &format!("{} programs: every parameter tree with <= {} leaves and flat/improper lists up to 40 as main / defun / defun-inline parameters, every literal and operator in 6 positions, binder chains over defun/inline/macro/if, recursion, constant calls, kernels", n, if thorough { 4 } else { 3 }), n, true, capped, st);
     rep.finish()
 }
